@@ -21,10 +21,11 @@ const (
 	c9NoDial
 	c9WrongCount
 	c9Garbage
+	c9FewerItems // a cleanly framed stream that ends one item early (no item at all for a single accepted key)
 	c9Count
 )
 
-var c9Names = []string{"complete", "slow-complete", "no-dial", "wrong-count", "garbage"}
+var c9Names = []string{"complete", "slow-complete", "no-dial", "wrong-count", "garbage", "fewer-items"}
 
 func genC09(r *prng) *plan {
 	p := &plan{Cfg: map[string]int64{}}
@@ -69,6 +70,10 @@ func genC09(r *prng) *plan {
 			p.Ops = append(p.Ops, opSpec{K: "wait", N: []int64{int64(r.intn(6000))}})
 		}
 	}
+	if np >= 2 && r.chance(40) {
+		// offerers with different version sets against a node that speaks both
+		p.Cfg["mixed"], p.Cfg["vv"] = 1, 2
+	}
 	return p
 }
 
@@ -81,6 +86,7 @@ type c9offer struct {
 	sentAt      time.Duration
 	replyAt     time.Duration
 	earliestEnd time.Duration // the accepted transfer cannot have ended before this instant
+	ver         uint8         // version negotiated with this offer's puppet
 	reply       acceptReply
 	accKeys     [][]byte
 	accItems    [][]byte
@@ -103,7 +109,14 @@ func runC09(seed uint64) {
 	faults := p.cfg("faults") == 1
 	w.res.Class = map[bool]string{true: "faults", false: "fault-free"}[faults]
 	vv, pv := versionSets[p.cfg("vv")%3], versionSets[p.cfg("pv")%3]
-	ver, common := highestCommon(pv, vv, true)
+	// mixed runs: the offerers advertise different version sets, so a key can be in flight from a
+	// version-0 exchange when a version-1 offer names it
+	pvOf := func(i int) []uint8 {
+		if p.cfg("mixed") == 1 {
+			return versionSets[(int(p.cfg("pv"))+i)%3]
+		}
+		return pv
+	}
 	limit := int(p.cfg("limit"))
 	deco := &decoStore{}
 	switch p.cfg("radius") {
@@ -121,7 +134,7 @@ func runC09(seed uint64) {
 	}
 	var pups []*puppet
 	for i := 0; i < np; i++ {
-		pups = append(pups, w.newPuppet(nodeCfg{name: fmt.Sprintf("P%d", i), port: 9100 + i, key: detKey(seed, 10+i), versions: pv, maxUtp: 50}))
+		pups = append(pups, w.newPuppet(nodeCfg{name: fmt.Sprintf("P%d", i), port: 9100 + i, key: detKey(seed, 10+i), versions: pvOf(i), maxUtp: 50}))
 	}
 	w.runFor(30 * time.Millisecond)
 	if faults {
@@ -167,6 +180,8 @@ func runC09(seed uint64) {
 			w.runFor(time.Duration(op.n(0)) * time.Millisecond)
 		case "offer":
 			o := &c9offer{id: len(offers), puppet: pups[int(op.n(0))%np], beh: int(op.n(1)) % c9Count}
+			ver, common := highestCommon(pvOf(int(op.n(0))%np), vv, true)
+			o.ver = ver
 			for i := 4; i < len(op.N); i++ {
 				o.keys = append(o.keys, c9key(op.N[i]))
 				o.items = append(o.items, valueFor(int64(o.id)*1000+int64(i), op.n(2)*int64(1+i%3)/2))
@@ -246,7 +261,7 @@ func runC09(seed uint64) {
 		o := cands[0]
 		o.matched = true
 		switch {
-		case o.beh == c9WrongCount || o.beh == c9Garbage || o.beh == c9NoDial:
+		case o.beh == c9WrongCount || o.beh == c9Garbage || o.beh == c9NoDial || o.beh == c9FewerItems:
 			w.violate("C09", "bad-stream-enqueued", "offer#%d sent a %s stream, yet an element with its keys was handed to validation", o.id, c9Names[o.beh])
 		case len(el.Contents) != len(o.accItems):
 			w.violate("C09", "pairing", "offer#%d: %d accepted keys but %d contents handed to validation", o.id, len(o.accKeys), len(el.Contents))
@@ -329,11 +344,15 @@ func c9RunOffer(w *world, V *baseNode, vp *proto, o *c9offer, tr *offerTracker, 
 	seenKey := map[string]bool{}
 	for _, i := range a.acceptedIdx() {
 		k := o.keys[i]
-		if ver == 1 && !seenKey[string(k)] {
+		if !seenKey[string(k)] {
 			// two offers both accepted k: one of them was handled first, and its transfer was still
-			// pending when the other was handled unless it could have ended before the other's reply
+			// pending when the other was handled unless it could have ended before the other's reply.
+			// Only a version-1 exchange is bound by the rule: with mixed versions the later one must be
+			// known (x's reply had arrived before o was sent) and be the version-1 one.
 			for _, x := range accBy[string(k)] {
-				if x != o && o.replyAt <= x.earliestEnd && x.replyAt <= o.earliestEnd {
+				bothV1 := ver == 1 && x.ver == 1 && o.replyAt <= x.earliestEnd && x.replyAt <= o.earliestEnd
+				laterIsV1 := ver == 1 && x.replyAt < o.sentAt && o.replyAt <= x.earliestEnd
+				if x != o && (bothV1 || laterIsV1) {
 					w.violate("C09", "accepted-in-flight", "offer#%d key %d accepted (v1) although offer#%d, still pending, had the same key accepted (replies at %v and %v, neither transfer could have ended before the other reply)", o.id, i, x.id, x.replyAt, o.replyAt)
 				}
 			}
@@ -407,6 +426,8 @@ func c9RunOffer(w *world, V *baseNode, vp *proto, o *c9offer, tr *offerTracker, 
 		payload = frameItems(append(append([][]byte{}, o.accItems...), []byte("surplus")))
 	case c9Garbage:
 		payload = []byte{0xff, 0xff, 0xff, 0xff, 0xff, 0xff, 0x01}
+	case c9FewerItems:
+		payload = frameItems(o.accItems[:len(o.accItems)-1])
 	default:
 		payload = frameItems(o.accItems)
 	}
